@@ -656,9 +656,21 @@ class Encoder:
                 vals[i] = self.parse_const(ftxt)
             return self.adt_value(m.group(1), vals)
         # tuple-struct / tuple constant: PATH(a, b) or (a, b)
-        m = re.match(r"^(.*?)\((.*)\)$", txt, re.S)
-        if m and not txt.startswith("{"):
-            inner = m.group(2)
+        m = None
+        if txt.endswith(")") and not txt.startswith("{"):
+            # the parenthesis matching the final one (generic arguments may contain `()` themselves)
+            depth = 0
+            for k in range(len(txt) - 1, -1, -1):
+                if txt[k] == ")":
+                    depth += 1
+                elif txt[k] == "(":
+                    depth -= 1
+                    if depth == 0:
+                        m = re.match(r"^(.*)$", txt[:k], re.S)
+                        inner_txt = txt[k + 1:-1]
+                        break
+        if m:
+            inner = inner_txt
             fields = self.split_const_fields(inner) if inner.strip() else []
             vals = {i: self.parse_const(f) for i, f in enumerate(fields)}
             if m.group(1).strip() == "":
